@@ -304,12 +304,11 @@ class Eval:
             return self._arith(a - b, t, g), t
         if k == "mul":
             ch = self._chstack.pop()
-            p = a * b
             if ch is not False and ch is not True and not (e[1][0] == "lit" and e[2][0] == "lit"):
                 # same identity as for / and % below: with no reduction inside the operands the factors are
-                # the exact integer values of the operand expressions
-                p = ite(ch, p, self.exact(e[1]) * self.exact(e[2]))
-            return self._arith(p, t, g), t
+                # the exact integer values of the operand expressions (one product term over selected factors)
+                a, b = ite(ch, a, self.exact(e[1])), ite(ch, b, self.exact(e[2]))
+            return self._arith(a * b, t, g), t
         if k in ("div", "mod"):
             z = b == 0
             self._flag("divzero", g, z)
@@ -481,20 +480,27 @@ def shift_count_literals(e, inside=False, acc=None):
     return acc
 
 
-def mul_right_literals(e, inside=False, acc=None):
-    """indices of literals occurring inside the right operand of a multiplication"""
+def _is_leaf(e):
+    """literal, negated literal or cast literal"""
+    return e[0] == "lit" or (e[0] in ("neg", "cast") and e[-1][0] == "lit")
+
+
+def mul_right_literals(e, inside=False, acc=None, compound_only=False):
+    """indices of literals occurring inside the right operand of a multiplication
+    (compound_only: only of multiplications that have an operand which is not a literal, -literal or (T)literal)"""
     if acc is None:
         acc = set()
     if e[0] == "lit":
         if inside:
             acc.add(e[1])
     elif e[0] == "mul":
-        mul_right_literals(e[1], inside, acc)
-        mul_right_literals(e[2], True, acc)
+        mul_right_literals(e[1], inside, acc, compound_only)
+        both_plain = _is_leaf(e[1]) and _is_leaf(e[2])
+        mul_right_literals(e[2], inside or not (compound_only and both_plain), acc, compound_only)
     else:
         for x in e[1:]:
             if isinstance(x, (list, tuple)):
-                mul_right_literals(x, inside, acc)
+                mul_right_literals(x, inside, acc, compound_only)
     return acc
 
 
